@@ -245,4 +245,50 @@ theorem generated_merge_disciplines :
        ("transpose", .concatCreationOrder)] := by
   decide
 
+/-! ## record-level interleavings and file order -/
+
+/-- stronger than chunk-wise: *any* interleaving of the workers' appends (any
+permutation of the individual cell records, as if there were no lock at all)
+is neutralised by `re_order_blob`, as long as every cell id is reported once -/
+theorem interleaving_indep_rekey {ν} (blob₁ blob₂ : List (Nat × ν)) (hp : blob₁.Perm blob₂)
+    (hn : (blob₁.map (·.1)).Nodup) (cellOrder : List Nat) :
+    reorderBlob blob₁ cellOrder = reorderBlob blob₂ cellOrder := by
+  simp only [reorderBlob]
+  have : ∀ c, dictGet (dictOfList blob₁) c = dictGet (dictOfList blob₂) c :=
+    fun c => dictGet_perm hp hn c
+  simp only [this]
+
+example : reorderBlob [(7, "b"), (5, "c"), (3, "a")] [3, 5, 7]
+    = reorderBlob [(3, "a"), (7, "b"), (5, "c")] [3, 5, 7] := by decide
+
+theorem collect_map_fst {ν} (order : List Nat) (f : Nat → Option ν) (r : List (Nat × ν))
+    (h : collect (order.map (fun c => (f c).map (fun v => (c, v)))) = some r) :
+    r.map (·.1) = order := by
+  induction order generalizing r with
+  | nil =>
+    simp only [List.map_nil, collect, Option.some.injEq] at h
+    subst h; rfl
+  | cons c cs ih =>
+    simp only [List.map_cons] at h
+    cases hf : f c with
+    | none => simp [hf, collect] at h
+    | some v =>
+      simp only [hf, Option.map_some, collect] at h
+      cases hc : collect (cs.map (fun c => (f c).map (fun v => (c, v)))) with
+      | none => simp [hc] at h
+      | some r' =>
+        simp only [hc, Option.map_some, Option.some.injEq] at h
+        subst h
+        simp [ih r' hc]
+
+/-- whatever the workers delivered and in whatever order: if `re_order_blob`
+returns at all, it returns exactly one record per cell of the query file, in
+file order (a missing cell is a `KeyError`, never a silently shorter list) -/
+theorem rekey_follows_file_order {ν} (blob : List (Nat × ν)) (cellOrder : List Nat)
+    (r : List (Nat × ν)) (h : reorderBlob blob cellOrder = some r) :
+    r.map (·.1) = cellOrder :=
+  collect_map_fst cellOrder (dictGet (dictOfList blob)) r (by simpa [reorderBlob] using h)
+
+example : reorderBlob [(3, "a")] [3, 5] = none := by decide
+
 end CTM.C04
